@@ -53,6 +53,10 @@ impl Observer for CrashObserver {
 pub enum Fault {
     /// unwind at the k-th crash point (1-based)
     CrashAt(usize),
+    /// like `CrashAt` for a point inside a poll, but the tower stays down while the history's next blocks are
+    /// mined (the chain operations that follow the poll, up to the next poll): the restart's own catch-up has
+    /// to process them
+    CrashAtMineDown(usize),
     /// during operation `op` (a poll), fail the download of the m-th block (0-based), then restart
     DownloadFailure { op: usize, block: usize, persistent: bool },
 }
@@ -190,7 +194,7 @@ fn debug_dump_events(world: &World, label: &str) {
 }
 
 pub fn run_faulted(world: &mut World, cfg: &tower::TowerCfg, ops: &[Op], base_snaps: &[Snap], fault: &Fault, salt: u64) -> FaultRun {
-    let obs = Arc::new(CrashObserver { count: AtomicUsize::new(0), crash_at: AtomicUsize::new(match fault { Fault::CrashAt(k) => *k, _ => 0 }), names: Mutex::new(vec![]), record: false });
+    let obs = Arc::new(CrashObserver { count: AtomicUsize::new(0), crash_at: AtomicUsize::new(match fault { Fault::CrashAt(k) | Fault::CrashAtMineDown(k) => *k, _ => 0 }), names: Mutex::new(vec![]), record: false });
     set_observer(Some(obs.clone()));
     let chain = world.simchain();
     let node = world.node.clone();
@@ -203,6 +207,8 @@ pub fn run_faulted(world: &mut World, cfg: &tower::TowerCfg, ops: &[Op], base_sn
     let mut force_restart_after: Option<usize> = None;
     let in_op = std::cell::Cell::new(false);
     let mut shrinking_update_in_flight = false;
+    // operations already applied to the chain while the tower was down
+    let mut applied_while_down: std::collections::BTreeSet<usize> = Default::default();
     let _ = std::fs::remove_file(&cfg.db_path);
     loop {
         let before_i = i;
@@ -227,6 +233,10 @@ pub fn run_faulted(world: &mut World, cfg: &tower::TowerCfg, ops: &[Op], base_sn
                     }
                 }
                 while i < ops.len() {
+                    if applied_while_down.contains(&i) {
+                        i += 1;
+                        continue;
+                    }
                     if let Op::Restart = ops[i] {
                         i += 1;
                         return None;
@@ -304,6 +314,33 @@ pub fn run_faulted(world: &mut World, cfg: &tower::TowerCfg, ops: &[Op], base_sn
                     v.0 = "C03:slots-granted:shrinking-update-in-flight".into();
                     v.1.push_str(" — the request in flight replaced an appointment by a smaller one: the slots it frees are returned (and persisted) before the stored appointment is replaced, so after the crash the client's retry is refunded a second time");
                 }
+                if v.0 == "C03:response-lost" && !applied_while_down.is_empty() {
+                    // Which responses are missing? If every one of them is a penalty that the tower had handed to the
+                    // node before it died, that confirmed while the tower was down, and that the node answered
+                    // "already in chain" (-27) to when the restarted tower re-processed the breach, the breach IS
+                    // answered and the appointment is held; what is missing is the tracker (see known findings).
+                    if let (Ok(got), Some(did)) = (Snap::read(&cfg.db_path), v.1.split('#').nth(1).and_then(|x| x.split_whitespace().next()).and_then(|x| x.parse::<usize>().ok())) {
+                        let base = &base_snaps[did];
+                        let missing: Vec<&crate::snap::TrackerRow> = base.trackers.iter().filter(|(u, _)| got.appts.contains_key(*u) && !got.trackers.contains_key(*u)).map(|(_, t)| t).collect();
+                        let evs = world.log.since(0);
+                        let all_confirmed_while_down = !missing.is_empty()
+                            && missing.iter().all(|t| {
+                                let txid = bitcoin::consensus::deserialize::<bitcoin::Transaction>(&t.penalty_tx).map(|x| x.compute_txid());
+                                match txid {
+                                    Ok(txid) => {
+                                        lock(&world.chain).confirmed_height(&txid, usize::MAX).is_some()
+                                            && evs.iter().any(|e| matches!(e, crate::events::Ev::Send { txid: x, verdict: crate::events::Verdict::Code(-27) } if *x == txid))
+                                            && evs.iter().any(|e| matches!(e, crate::events::Ev::Send { txid: x, verdict: crate::events::Verdict::Accepted | crate::events::Verdict::AlreadyInMempool } if *x == txid))
+                                    }
+                                    Err(_) => false,
+                                }
+                            });
+                        if all_confirmed_while_down {
+                            v.0 = "C03:response-untracked:penalty-confirmed-while-tower-down".into();
+                            v.1.push_str(" — the tower had handed that penalty to the node before it died (between sending it and storing the tracker, or before the block was finished), the penalty confirmed while the tower was down, and the restarted tower, re-processing the breach, got 'already in chain' and created no tracker");
+                        }
+                    }
+                }
                 fr.violation = Some(v);
                 debug_dump_events(world, "faulted");
                 break;
@@ -329,6 +366,42 @@ pub fn run_faulted(world: &mut World, cfg: &tower::TowerCfg, ops: &[Op], base_sn
                         fr.crashed_in = Some(short_op(&ops[i]));
                         compare_from = Some(compare_from.unwrap_or(i).min(i));
                         redo_after_crash = true;
+                        if let (Fault::CrashAtMineDown(_), Op::Poll) = (fault, &ops[i]) {
+                            // the history's next chain operations happen while the tower is down
+                            let mut j = i + 1;
+                            // (only mining: a reorg while the tower is down may remove the very block it died in, which the
+                            // uninterrupted run has processed and the restarted tower rightly never sees)
+                            while j < ops.len() && matches!(ops[j], Op::Mine { .. }) {
+                                j += 1;
+                            }
+                            // causality: those blocks were generated for the uninterrupted run; a penalty in them that
+                            // this (crashed) tower has not handed to the node yet could not have been mined
+                            let causal = (i + 1..j).all(|q| {
+                                let blocks: &Vec<Vec<crate::world::TxRef>> = match &ops[q] {
+                                    Op::Mine { blocks } => blocks,
+                                    Op::Reorg { blocks, .. } => blocks,
+                                    _ => return true,
+                                };
+                                let st = lock(&world.node.state);
+                                blocks.iter().flatten().all(|t| match t {
+                                    crate::world::TxRef::Penalty(_) => st.mempool.contains_key(&world.resolve(t, salt).compute_txid()),
+                                    _ => true,
+                                })
+                            });
+                            if causal && j > i + 1 && j < ops.len() && matches!(ops[j], Op::Poll) {
+                                for q in i + 1..j {
+                                    match &ops[q] {
+                                        Op::Mine { blocks } => world.mine(blocks, salt),
+                                        Op::Reorg { depth, blocks } => world.reorg(*depth, blocks, salt),
+                                        _ => {}
+                                    }
+                                    applied_while_down.insert(q);
+                                }
+                                // comparable again once the uninterrupted run has polled those blocks too
+                                compare_from = Some(j);
+                                fr.crashed_in = Some("Poll+blocks-mined-while-down".into());
+                            }
+                        }
                         if let Op::Add { signer: Signer::User(u), ver, good: true, .. } = &ops[i] {
                             let id = world.users[*u].1.serialize().to_vec();
                             *allowance.entry(id).or_insert(0) += world.versions[*ver].cost();
@@ -381,7 +454,7 @@ pub const LIFECYCLE_BASE: u64 = 6_000_000;
 /// per poll, so that every durable write of those rare transitions is a crash point of its own.
 /// Returns the case and the index of the first operation of the focus window (crash points before it
 /// are not enumerated: the random `crash` histories cover those operations).
-pub fn lifecycle_case(seed: u64, id: u64, dir: &PathBuf) -> (Case, usize) {
+pub fn lifecycle_case(seed: u64, id: u64, dir: &PathBuf) -> (Case, Vec<std::ops::Range<usize>>) {
     use crate::world::{BlobKind, SigKind, TxRef};
     let mut rng = crate::rng::Rng::stream(seed, id, 0xC3);
     let expiry_variant = id % 2 == 1;
@@ -415,6 +488,7 @@ pub fn lifecycle_case(seed: u64, id: u64, dir: &PathBuf) -> (Case, usize) {
     let u = rng.usize(n_users);
     let _ = add(&mut case, &mut rng, &mut ops, n_track, u);
     // disputes: one block, or one block each
+    let first_dispute_op = ops.len();
     let spread = rng.chance(60, 100);
     if spread {
         for c in 0..n_track {
@@ -426,6 +500,8 @@ pub fn lifecycle_case(seed: u64, id: u64, dir: &PathBuf) -> (Case, usize) {
         ops.push(Op::Poll);
     }
     let focus;
+    // end of the early window (breaches answered, penalties confirming), also enumerated
+    let mut early_end = ops.len();
     if expiry_variant {
         // penalties confirm (or not), then the subscriptions run out block by block
         if rng.chance(60, 100) {
@@ -433,6 +509,7 @@ pub fn lifecycle_case(seed: u64, id: u64, dir: &PathBuf) -> (Case, usize) {
             ops.push(Op::Poll);
         }
         focus = ops.len();
+        early_end = focus;
         for _ in 0..(duration + grace + 3) {
             ops.push(Op::Mine { blocks: vec![vec![]] });
             ops.push(Op::Poll);
@@ -447,6 +524,7 @@ pub fn lifecycle_case(seed: u64, id: u64, dir: &PathBuf) -> (Case, usize) {
             ops.push(Op::Mine { blocks: vec![vers.iter().map(|v| TxRef::Penalty(*v)).collect()] });
             ops.push(Op::Poll);
         }
+        early_end = ops.len();
         ops.push(Op::Mine { blocks: (0..96).map(|_| vec![]).collect() });
         ops.push(Op::Poll);
         focus = ops.len();
@@ -459,10 +537,12 @@ pub fn lifecycle_case(seed: u64, id: u64, dir: &PathBuf) -> (Case, usize) {
         let sig = case.world.sign(&mut rng, Signer::User(u), b"get subscription info", SigKind::Good);
         ops.push(Op::GetSub { signer: Signer::User(u), sig, good: true });
     }
+    let n_ops = ops.len();
     case.max_steps = ops.len();
     case.ops = ops.clone();
     case.script = Some(ops);
-    (case, focus)
+    let _ = &mut early_end;
+    (case, vec![first_dispute_op..early_end, focus..n_ops])
 }
 
 pub fn run(seed: u64, shard: u64, nshards: u64, cases: u64, max_points_per_case: usize, only: Option<(u64, Fault)>, rep: &mut Report) {
@@ -475,7 +555,7 @@ pub fn run(seed: u64, shard: u64, nshards: u64, cases: u64, max_points_per_case:
     };
     for id in ids {
         // ---- uninterrupted run (model-checked), counting crash points
-        let (mut case, focus_from) = if id >= LIFECYCLE_BASE { lifecycle_case(seed, id, &dir) } else { (Case::new(seed, id, "crash", &dir), 0) };
+        let (mut case, focus) = if id >= LIFECYCLE_BASE { lifecycle_case(seed, id, &dir) } else { (Case::new(seed, id, "crash", &dir), Vec::new()) };
         case.probe = false;
         case.record_snaps = true;
         let pristine = case.world.fork();
@@ -521,10 +601,10 @@ pub fn run(seed: u64, shard: u64, nshards: u64, cases: u64, max_points_per_case:
                     boot_run.clear();
                 };
                 for (k, name) in names.iter().enumerate() {
-                    if focus_from > 0 {
-                        // lifecycle history: only the focus window
-                        let op: usize = name.rsplit('@').next().and_then(|o| o.parse().ok()).unwrap_or(0);
-                        if op >= focus_from {
+                    if !focus.is_empty() {
+                        // lifecycle history: only the focus windows
+                        let op: usize = name.rsplit('@').next().and_then(|o| o.parse().ok()).unwrap_or(usize::MAX);
+                        if focus.iter().any(|w| w.contains(&op)) {
                             selected.push(k + 1);
                         }
                         continue;
@@ -554,7 +634,25 @@ pub fn run(seed: u64, shard: u64, nshards: u64, cases: u64, max_points_per_case:
                     selected = sampled;
                 }
                 r.count("crash_points_selected", selected.len() as u64);
+                // a sample of the crash points inside polls that are followed by mining and another poll, with
+                // those blocks mined while the tower is down
+                let mut md: Vec<usize> = Vec::new();
+                for k in &selected {
+                    let name = &names[*k - 1];
+                    if let Some(op) = name.rsplit('@').next().and_then(|o| o.parse::<usize>().ok()) {
+                        if matches!(case.ops.get(op), Some(Op::Poll)) && matches!(case.ops.get(op + 1), Some(Op::Mine { .. })) && (name.starts_with("db.") || name.starts_with("rpc.")) {
+                            md.push(*k);
+                        }
+                    }
+                }
+                let cap = (max_points_per_case / 3).max(10);
+                if md.len() > cap {
+                    let step = md.len() as f64 / cap as f64;
+                    md = (0..cap).map(|q| md[(q as f64 * step) as usize]).collect();
+                }
+                r.count("crash_points_selected_with_blocks_mined_while_down", md.len() as u64);
                 faults.extend(selected.into_iter().map(Fault::CrashAt));
+                faults.extend(md.into_iter().map(Fault::CrashAtMineDown));
                 // download failures: every multi-block poll, every block position (bounded)
                 let mut pending = 0usize;
                 for (i, op) in case.ops.iter().enumerate() {
@@ -590,10 +688,10 @@ pub fn run(seed: u64, shard: u64, nshards: u64, cases: u64, max_points_per_case:
             }
             if let Some((sig, detail)) = fr.violation {
                 let name = match &f {
-                    Fault::CrashAt(k) => names.get(k - 1).cloned().unwrap_or_default(),
+                    Fault::CrashAt(k) | Fault::CrashAtMineDown(k) => names.get(k - 1).cloned().unwrap_or_default(),
                     _ => "download failure".into(),
                 };
-                let replay = json!({"engine":"e1c","seed":seed,"case":id,"fault": match &f { Fault::CrashAt(k) => json!({"crash_at":k}), Fault::DownloadFailure{op,block,persistent} => json!({"download_failure":[op,block,persistent]}) },
+                let replay = json!({"engine":"e1c","seed":seed,"case":id,"fault": match &f { Fault::CrashAt(k) => json!({"crash_at":k}), Fault::CrashAtMineDown(k) => json!({"crash_at_mine_down":k}), Fault::DownloadFailure{op,block,persistent} => json!({"download_failure":[op,block,persistent]}) },
                     "ops": case.ops.iter().map(|o| o.to_json()).collect::<Vec<_>>()});
                 r.violation(sig, format!("history {id}, fault {f:?} ({name}; in flight: {:?}): {detail}", fr.crashed_in), replay);
             }
